@@ -6,7 +6,7 @@ package token
 // Genesis import (C12): the parameters, every listed token (under its symbol and its min unit) and every burned-coin
 // total are stored as listed. A duplicate symbol or min unit aborts the import (AddToken fails), so on every returning
 // path the listed tokens are pairwise distinct and none overwrites another.
-//@ func InitGenesis
+//@ func InitGenesis(ctx, k, data)
 //@   property C12
 //@   requires forall i:Int :: forall j:Int :: 0 <= i && i < j && j < len(data.BurnedCoins) ==> data.BurnedCoins[i].Denom != data.BurnedCoins[j].Denom
 //@   requires forall d:Str :: !has(burned, d)
